@@ -315,7 +315,7 @@ def run(ctx):
             for k in range(n):
                 args = ["--tier", ctx.tier, "--shard", str(k), str(n), "--deadline", str(deadline)]
                 jobs.append(lambda b=bins[(t, part)], a=args, tg=tag_of(t, part): ctx.run_harness(b, a, tag=tg))
-    nm = 8 if thorough else 4
+    nm = 12 if thorough else 4
     for k in range(nm):
         args = ["--tier", ctx.tier, "--shard", str(k), str(nm), "--deadline", str(deadline)]
         jobs.append(lambda a=args: ctx.run_harness(bins[("double", "MIXED")], a, tag=tag_of("double", "MIXED")))
@@ -326,8 +326,9 @@ def run(ctx):
         raise vlib.HarnessError("C10: the Annex G rule table and libstdc++'s std::complex disagree on %d premise-matching operand pairs: %s" % (
             ctx.stats["oracle_disagreements"], [n for n in ctx.notes if n.startswith("ORACLE-DISAGREEMENT")][:5]))
     nv = ctx.maxes.get("alphabet_size", 0)
-    ctx.stat("instantiations_enabled", len(enabled) * len(TYPES))
-    ctx.stat("instantiations_ill_formed", len(ill) * len(TYPES))
+    weight = lambda e: 1 if e[0] in ("MEQ", "MNE", "MBIN") else len(TYPES)      # mixed-type entries name their own types
+    ctx.stat("instantiations_enabled", sum(weight(e) for e in enabled))
+    ctx.stat("instantiations_ill_formed", sum(weight(e) for e in ill))
     if ill:
         ctx.note("%d of %d manifest instantiations (per T) are ill-formed on this tree and have no executions to check "
                  "(operator=, += and -= only compile between identical xcomplex types, so *= and /= on reference closures, "
@@ -339,7 +340,9 @@ def run(ctx):
         "component alphabet V (|V| = %d per T in {float,double}: +-0, small integers and 0.5, inexact values 1/3 and -(1+eps), 2^+-BIG, max, min normal%s, +-inf, NaN); "
         "ALL operand pairs (a+bi, c+di) in V^4 are pushed through every enabled instantiation: + - * / as binary operators (3x3 closure kinds {T,T&,const T&} x 2x2 ieee flags), "
         "the four compound forms, complex o scalar / scalar o complex / complex o= scalar (scalar of type T and int; all (a,b,c) in V^3), operands converted from and back to std::complex, "
-        "xcomplex and scalar assignment, == and !=, unary - and +, conj/proj/abs/arg/norm and 16 forwarded elementary functions (all (a,b) in V^2), pow in its three forms, and the real()/imag() accessor battery. "
+        "the aliasing forms of every compound assignment (z op= z, z op= a (const) reference closure over z's own parts, a reference closure op= the value it aliases, two closures over one storage, z op= z.real() / z.imag(); all (a,b) in V^2), "
+        "xcomplex and scalar assignment, == and !=, == and != between different value types (all ordered pairs of float/double/int/long double x 3x3 closure kinds, parts from a separate alphabet of values that are exact in the operand's type and in the common type, "
+        "including 0.1 and 1/3 in each precision, 2^24+1, 2^53+1), unary - and +, conj/proj/abs/arg/norm and 16 forwarded elementary functions (all (a,b) in V^2), pow in its three forms, and the real()/imag() accessor battery. "
         "Oracles: exact result in __float128 with normwise tolerance 8 eps for finite well-scaled operands (IEEE mode also for divisors of extreme normal magnitude), the six Annex G rules of the statement for ieee_compliant=true, "
         "bit-identity (modulo NaN payload) with the value-closure instantiation and with std::complex for forwarded functions, == decided from the bit patterns, operands/referents after the operation. "
         "evaluations = executions of one instantiation on one operand tuple. distinct_nontrivial = distinct (T, operation, operand form cc/cs/sc, effective ieee flag, operand tuple) combinations - closure kinds NOT counted separately - "
@@ -351,7 +354,9 @@ def run(ctx):
         "IEEE division by an extreme divisor is judged by value only when the dividend is well-scaled, the divisor's larger part is normal and the exact quotient has magnitude in [2^-1000, 2^1000] (double) / [2^-110, 2^110] (float)",
         "signs of zeros, NaN payloads and results for NaN operands are not judged; an operand with an infinite part counts as an infinity even if the other part is NaN",
         "libstdc++/libgcc std::complex * and / are a second opinion on the rule table (a disagreement aborts the check as a harness error); std::complex functions are the reference for the forwarded elementary functions",
-        "only the three closure kinds (T,T), (T&,T&), (const T&,const T&) are instantiated; mixed kinds such as (T&, T) and mixed precisions are not",
+        "only the three closure kinds (T,T), (T&,T&), (const T&,const T&) are instantiated; mixed kinds such as (T&, T) are not; different value types meet only in == / != (binary arithmetic between them is ill-formed on the pinned tree and probed)",
+        "aliased compound assignments are judged by the same value rules with the operand on both sides, and outside the reach of the tolerance rule by equality (up to the sign of zeros) with the binary operator applied to two copies",
+        "mixed-type == / != : a part is only used for an operand when it is exactly representable in that operand's type and in the type the built-in comparison converts to, so 'comparing both parts' has a single meaning (int 2^24+1 never meets a float)",
         "harness built with g++ -O1 -ffp-contract=off, AddressSanitizer in recover mode as an additional oracle",
     ]
 
